@@ -1,8 +1,86 @@
 import Solvor.Common.Proto
 import Solvor.Net.Model
-/-! Net: line-protocol handler. One request line in, one reply line out. -/
-namespace Solvor.Net
+/-! Net: line-protocol handler.
 
-def handle (line : String) : String := "unimplemented " ++ line
+request `["case", nodes, nbrs, k, damping, tol, maxIter, resolution, lvFuel, eps, implPR, implLV]`
+  nodes      : node labels in the caller's iteration order (distinct naturals)
+  nbrs       : neighbour list of each node (same order), labels possibly outside `nodes`
+  k          : the level for `kcore(k)`
+  damping, tol, resolution : `null` (use the default regenerated from /repo) or `[[num, den], bits]`
+  maxIter    : `null` (default) or a positive integer
+  lvFuel     : bound on Louvain's `while improved` passes in the mirror
+  eps        : `[num, den]`, the absolute slack the property names (1e-9)
+  implPR     : `null` or `[status, [[num, den], …]]` – implementation scores, exact, in node order
+  implLV     : `null` or `[communities, [num, den]]` – implementation partition and reported modularity
+reply
+  `[defs, mirror, pr, prv, lv, lvv]`
+  defs   = [compCount, cutVerticesDef, bridgesDef, coreNumDef per node, kcoreDef k]
+  mirror = [cut vertices, bridges, core_number items, kcore(k)]   (mirrors, returned order)
+  pr     = [status, iters, score bits per node, maxDiff bits]      (Float mirror)
+  prv    = null | [prCheck verdict, nonneg, sum, residual, bound]   (verified checker on implPR)
+  lv     = null | [communities, iters]                              (Float mirror; null = out of fuel)
+  lvv    = null | [isPartition verdict, modularityDef, |reported − modularityDef| ≤ eps]
+-/
+namespace Solvor.Net
+open Solvor.Proto
+open Solvor.Gen (Status)
+
+def ofPairs (l : List (Nat × Nat)) : Val := Val.arr (l.map fun p => Val.ofNats [p.1, p.2])
+
+def fbits (x : Float) : Val := Val.int (Int.ofNat x.toBits.toNat)
+
+/-- `null` ↦ default, `[[num, den], bits]` ↦ both readings of the same double -/
+def scalar? (v : Val) (dq : Rat) (db : UInt64) : Option (Rat × Float) :=
+  match v with
+  | Val.null => some (dq, Float.ofBits db)
+  | Val.arr [q, Val.int b] => (q.toRat?).map fun q => (q, Float.ofBits (UInt64.ofNat b.toNat))
+  | _ => none
+
+def mkGraph (nodes : List Nat) (nbrs : List (List Nat)) : Graph :=
+  ⟨nodes, fun v => aget (nodes.zip nbrs) v []⟩
+
+def handle (line : String) : String :=
+  match request line with
+  | some ("case", [nodes, nbrs, k, damping, tol, maxIter, resolution, lvFuel, eps, implPR, implLV]) =>
+    match nodes.toNats?, nbrs.toNatss?, k.toNat?, scalar? damping Gen.Net.prDamping Gen.Net.prDamping_bits,
+          scalar? tol Gen.Net.prTol Gen.Net.prTol_bits, maxIter.toOpt? Val.toNat?,
+          scalar? resolution Gen.Net.lvResolution Gen.Net.lvResolution_bits, lvFuel.toNat?, eps.toRat? with
+    | some nodes, some nbrs, some k, some (dq, df), some (tq, tf), some mi, some (γq, γf), some fuel, some eps =>
+      let G := mkGraph nodes nbrs
+      let mi := mi.getD Gen.Net.prMaxIter.toNat
+      let defs := Val.arr [Val.int (compCount G.nodes G.arc), Val.ofNats (cutVerticesDef G),
+        ofPairs (bridgesDef G), Val.ofNats (G.nodes.map (coreNumDef G)), Val.ofNats (kcoreDef G k)]
+      let ll := lowlink G
+      let mirror := Val.arr [Val.ofNats ll.1, ofPairs ll.2, ofPairs (kcoreMirror G),
+        Val.ofNats (kcoreSetMirror G k)]
+      let p := pagerank floatOps G df tf mi
+      let pr := Val.arr [Val.str p.status.name, Val.int p.iters,
+        Val.arr (G.nodes.map fun v => fbits (aget p.scores v 0.0)), fbits p.maxDiff]
+      let prv := match implPR with
+        | Val.arr [Val.str st, sc] =>
+          match sc.toRats? with
+          | some sc =>
+            let s := fun v => aget (G.nodes.zip sc) v 0
+            let n : Rat := (G.nodes.length : Nat)
+            -- converged: ‖T p − p‖∞ ≤ d·n·tol (+ eps); MAX_ITER: no residual claim
+            let bound := if st == "OPTIMAL" then dq * n * tq + eps else 2
+            Val.arr [Val.bool (prCheck G dq s eps bound), Val.bool (G.nodes.all fun v => decide (0 ≤ s v)),
+              Val.ofRat ((G.nodes.map s).sum), Val.ofRat (prResidual G dq s), Val.ofRat bound]
+          | none => Val.null
+        | _ => Val.null
+      let lv := match louvain floatOps G γf fuel with
+        | some o => Val.arr [Val.ofNatss o.comms, Val.int o.iters]
+        | none => Val.null
+      let lvv := match implLV with
+        | Val.arr [cs, q] =>
+          match cs.toNatss?, q.toRat? with
+          | some cs, some q =>
+            let md := modularityDef G γq cs
+            Val.arr [Val.bool (isPartition G.nodes cs), Val.ofRat md, Val.bool (ratOps.abs (q - md) ≤ eps)]
+          | _, _ => Val.null
+        | _ => Val.null
+      (Val.arr [defs, mirror, pr, prv, lv, lvv]).render
+    | _, _, _, _, _, _, _, _, _ => err "bad arguments"
+  | _ => err "bad request"
 
 end Solvor.Net
